@@ -294,6 +294,21 @@ func runC08(r *Report, rng *rand.Rand, thorough bool) {
 				}
 				return sameExcept(before, after, "B")
 			}},
+			{"x-go-name (snake case value)", func(p map[string]any) { p["b"].(map[string]any)["x-go-name"] = "owner_id" }, func(before, after []fieldDesc, code string) string {
+				// the value goes through the same normalisation as a property name: the field must stay exported
+				f := find(after, "OwnerId")
+				if f == nil || f.Type != "*int" || jsonTagOf(f.Tag) != "b,omitempty" || find(after, "B") != nil || find(after, "owner_id") != nil {
+					return "x-go-name: owner_id did not give the exported field OwnerId"
+				}
+				return sameExcept(before, after, "B")
+			}},
+			{"x-go-name (lower camel value)", func(p map[string]any) { p["b"].(map[string]any)["x-go-name"] = "homeHttpUrl" }, func(before, after []fieldDesc, code string) string {
+				f := find(after, "HomeHttpUrl")
+				if f == nil || f.Type != "*int" || jsonTagOf(f.Tag) != "b,omitempty" || find(after, "homeHttpUrl") != nil {
+					return "x-go-name: homeHttpUrl did not give the exported field HomeHttpUrl"
+				}
+				return sameExcept(before, after, "B")
+			}},
 			{"x-go-type(+import)", func(p map[string]any) {
 				p["b"].(map[string]any)["x-go-type"] = "decimal.Decimal"
 				p["b"].(map[string]any)["x-go-type-import"] = map[string]any{"path": "github.com/shopspring/decimal"}
@@ -362,5 +377,5 @@ func runC08(r *Report, rng *rand.Rand, thorough bool) {
 	fcases.WriteTo(r)
 	tcases.WriteTo(r)
 	r.Exhaustive = true
-	r.Rule = "exhaustive: every cell of required x nullable x readOnly x writeOnly x x-go-type-skip-optional-pointer {absent,true,false} x x-omitempty {absent,true,false} x x-go-json-ignore {absent,true,false} (432 cells) x disable-required-readonly-as-pointer x nullable-type (4 option sets) generated as one struct per option set, every field's type wrapper and json tag read back with go/parser and compared with the model in Coq and, for extension-free cells, with the documented rules; every (type, format) pair over 4 types x 23 formats incl. unknown ones vs the model's table and the documented rows; arrays / maps / free-form objects / $ref; x-go-name, x-go-type(+import), x-oapi-codegen-extra-tags, x-order, x-deprecated-reason must change exactly their own component (compared on the AST); non-trivial = a cell with an extension or option"
+	r.Rule = "exhaustive: every cell of required x nullable x readOnly x writeOnly x x-go-type-skip-optional-pointer {absent,true,false} x x-omitempty {absent,true,false} x x-go-json-ignore {absent,true,false} (432 cells) x disable-required-readonly-as-pointer x nullable-type (4 option sets) generated as one struct per option set, every field's type wrapper and json tag read back with go/parser and compared with the model in Coq and, for extension-free cells, with the documented rules; every (type, format) pair over 4 types x 23 formats incl. unknown ones vs the model's table and the documented rows; arrays / maps / free-form objects / $ref; x-go-name (CamelCase, snake_case and lowerCamel values), x-go-type(+import), x-oapi-codegen-extra-tags, x-order, x-deprecated-reason must change exactly their own component (compared on the AST); non-trivial = a cell with an extension or option"
 }
